@@ -23,6 +23,7 @@ structure Cur where
   sig : RState SigMap.St := .ok {}
   ack : RState AckMap.St := .ok {}
   wake : RState WakeMap.St := .ok {}
+  pool : RState PoolMap.St := .ok {}
   calls : List (Nat × Call) := []
 
 def wanted (sel : List String) (id : String) : Bool := sel.isEmpty || sel.contains id
@@ -59,8 +60,12 @@ def finish (sel : List String) (c : Cur) (e : EndInfo) : IO Unit := do
     | .ok _ => ("ok", [])
     | .na _ => ("na", [])
     | .rejected ln why => ("Wake", [s!"M {c.idx} Wake line={ln} {why}"])
-  let model := if model5 != "ok" && model5 != "na" then model5 else if model1 != "ok" && model1 != "na" then model1 else if model2 != "ok" && model2 != "na" then model2 else if model3 != "ok" && model3 != "na" then model3 else if model4 != "ok" && model4 != "na" then model4 else "ok"
-  let mlines := ml1 ++ ml2 ++ ml3 ++ ml4 ++ ml5
+  let (model6, ml6) : String × List String := match c.pool with
+    | .ok _ => ("ok", [])
+    | .na _ => ("na", [])
+    | .rejected ln why => ("Pool", [s!"M {c.idx} Pool line={ln} {why}"])
+  let model := if model6 != "ok" && model6 != "na" then model6 else if model5 != "ok" && model5 != "na" then model5 else if model1 != "ok" && model1 != "na" then model1 else if model2 != "ok" && model2 != "na" then model2 else if model3 != "ok" && model3 != "na" then model3 else if model4 != "ok" && model4 != "na" then model4 else "ok"
+  let mlines := ml1 ++ ml2 ++ ml3 ++ ml4 ++ ml5 ++ ml6
   let nas := (if model1 == "na" then 1 else 0) + (if model2 == "na" then 1 else 0) + (if model3 == "na" then 1 else 0)
   IO.println s!"RESULT {c.idx}{summary} model={model} na={nas} obs={tr.length} lines={c.nlines} ph={c.ph} sh={c.sh} nt={nt}"
   for m in mlines do IO.println m
@@ -87,7 +92,8 @@ partial def loop (h : IO.FS.Stream) (sel : List String) (c : Cur) : IO Unit := d
       | some rl => { c with res := ResMap.feed c.res (c.nlines + 1) rl, job := JobMap.feed c.job (c.nlines + 1) rl,
                                sig := SigMap.feed c.sig (c.nlines + 1) rl,
                                ack := AckMap.feed c.ack (c.nlines + 1) rl,
-                               wake := WakeMap.feed c.wake (c.nlines + 1) rl }
+                               wake := WakeMap.feed c.wake (c.nlines + 1) rl,
+                               pool := PoolMap.feed c.pool (c.nlines + 1) rl }
       | none => c
     match parseObs line with
     | some (.call g cid cl) => loop h sel { c with obs := c.obs.push (.call g cid cl), nlines := c.nlines + 1, calls := (cid, cl) :: c.calls }
@@ -97,7 +103,7 @@ partial def loop (h : IO.FS.Stream) (sel : List String) (c : Cur) : IO Unit := d
       loop h sel { c with obs := c.obs.push (.ret g cid cl' r), nlines := c.nlines + 1, calls := c.calls.filter (·.1 != cid) }
     | some .recover =>
       -- a fresh process: object names start again, so the model replays start again
-      loop h sel { c with obs := c.obs.push .recover, nlines := c.nlines + 1, res := .ok (Res.init 1), job := .ok {}, sig := .ok {}, wake := .ok {}, calls := [] }
+      loop h sel { c with obs := c.obs.push .recover, nlines := c.nlines + 1, res := .ok (Res.init 1), job := .ok {}, sig := .ok {}, wake := .ok {}, pool := .ok {}, calls := [] }
     | some o =>
       let obs := match parseObs2 line with | some o2 => (c.obs.push o).push o2 | none => c.obs.push o
       loop h sel { c with obs := obs, nlines := c.nlines + 1 }
